@@ -385,6 +385,34 @@ class Executor:
                                   f"from_data({{'nested': [1], 'ann': [1]}}, G2[Union[{order[0].__name__}, {order[1].__name__}]]) gave {k} {short(r, 80)!s}, "
                                   f"the left-most member {order[0].__name__} gives {want!r} in both fields")
                     return
+            # ... and in the types pane derives itself: the union of a constrained type variable's constraints, the list side of ValueOrList
+            import warnings
+            from pane.types import ValueOrList
+            for (order, other) in ((first, second), (second, first)):
+                # (somebody, somewhere, wrote the other order first.  What the *user* writes here is spelled with builtin aliases,
+                # which are not cached: a typing alias would already reach pane in the other order, which is not pane's doing)
+                t.List[t.Union[other]]      # type: ignore
+                t.Union[list[t.Union[other]], str]      # type: ignore
+                TV = t.TypeVar('TV', list[t.Union[order]], str)     # type: ignore
+                with warnings.catch_warnings():
+                    warnings.simplefilter('ignore')
+                    (k, r) = outcome(lambda: pane.from_data([1], TV))
+                    VT = ValueOrList[t.Union[order]]      # type: ignore
+                    if t.get_args(t.get_args(VT)[0]) != tuple(order):
+                        (k2, r2) = ('skip', None)      # typing itself handed us the alias of the other order (its cache, not pane's doing)
+                    else:
+                        (k2, r2) = outcome(lambda: pane.from_data([1, 2], VT))
+                want = order[0](1)
+                if k != 'ok' or type(r[0]) is not type(want):
+                    self.ctx.fail('history-independent', 'derived-union-order:constrained-typevar',
+                                  f"TypeVar('TV', list[Union[{order[0].__name__}, {order[1].__name__}]], str) given [1] after Union[list[Union[{other[0].__name__}, {other[1].__name__}]], str] "
+                                  f"was written elsewhere: {k} {short(r, 60)!s}; the left-most member {order[0].__name__} gives [{want!r}]")
+                    return
+                if k2 != 'skip' and (k2 != 'ok' or type(list(r2)[0]) is not type(want)):
+                    self.ctx.fail('history-independent', 'derived-union-order:ValueOrList',
+                                  f"ValueOrList[Union[{order[0].__name__}, {order[1].__name__}]] given [1, 2] after List[Union[{other[0].__name__}, {other[1].__name__}]] "
+                                  f"was written elsewhere: {k2} {short(r2, 60)!s}; the left-most member {order[0].__name__} gives {want!r} elements")
+                    return
             for (Ty, order) in ((A, first), (B, second)):
                 (k, r) = outcome(lambda: pane.from_data({'x': 1}, Ty))
                 want = order[0](1)
